@@ -80,7 +80,18 @@ func genC10(t *rapid.T) FaultCase {
 	if fc.Client == "ext-reader" || fc.Client == "ext-create" {
 		faults = append(faults, "conn-break", "conn-break")
 	}
+	if fc.Client != "handler" {
+		faults = append(faults, "io")
+	}
 	fc.Fault = rapid.SampledFrom(faults).Draw(t, "fault")
+	if fc.Fault == "io" {
+		// a step of the write fails once with an I/O error: creating a directory (only a write into an empty
+		// database creates any), listing one, creating the content file, writing one of the two records
+		fc.IOKind = rapid.SampledFrom([]string{"os.mkdir", "os.mkdir", "os.create", "os.readdir", "badger.set", "badger.set"}).Draw(t, "ioKind")
+		fc.IONth = rapid.IntRange(1, 3).Draw(t, "ioNth")
+		fc.Fresh = fc.IOKind == "os.mkdir" || rapid.IntRange(0, 3).Draw(t, "fresh") == 0
+		fc.InTx = fc.InTx && !fc.Fresh
+	}
 	if fc.Fault == "conn-break" {
 		fc.InTx = false
 		fc.Linger = rapid.SampledFrom([]int{0, 1, 3}).Draw(t, "linger")
